@@ -93,6 +93,7 @@ inductive Act
   | commit                         -- leaving the db_session normally
   | commitMid                      -- commit() / db.commit() INSIDE the db_session: the transaction ends, the session goes on
   | rollback                       -- leaving it with an exception
+  | begin                          -- only the first half of an operation: acquire_lock + BEGIN IMMEDIATE (call-granularity runs)
   deriving Repr, DecidableEq, Inhabited
 
 inductive Res
@@ -230,6 +231,11 @@ def step (n : Nat) (σ : St) (s : Sid) (a : Act) : St × Res :=
   | .commit => (commitSess n σ s true, .ok none)
   | .commitMid => (commitSess n σ s false, .ok none)
   | .rollback => (failSess σ s, .ok none)
+  | .begin =>
+      match ensureTxn n σ s with
+      | .blocked σ' => (σ', .blocked)
+      | .busy σ' => (σ', .busy)
+      | .ok σ' => (σ', .ok none)
 
 def run (n : Nat) (σ : St) : List (Sid × Act) → St
   | [] => σ
@@ -247,6 +253,42 @@ def runAll (n : Nat) (σ : St) : List (Sid × Act) → List Res × St
 def St.init (db : Obj → Val) (cfg : Sid → Bool × Bool) (dom : Sid → Nat) : St :=
   { db := db, lock := fun _ => none, pre := fun _ => none,
     sess := fun s => Sess.fresh (cfg s).1 (cfg s).2, dom := dom, lost := false, broken := false, unguarded := false }
+
+/-! ### the source statements this model mirrors (looked up in the current source by harness/gen_rowlock.py on every run) -/
+
+structure Src where
+  /-- `SessionCache.commit`: `cache.for_update.clear()` in its try body            (commitSess: `forUpd := fun _ => false`) -/
+  commitClearsForUpdate : Bool
+  /-- `SessionCache.commit`: `cache.immediate = True`                              (commitSess: `immediate := ss.immediate || !final`) -/
+  commitSetsImmediate : Bool
+  /-- `EntityMeta._find_in_db_`: `if for_update: cache.immediate = True` before `_exec_sql`   (lockRead: `ensureTxn` first) -/
+  findInDbLocksFirst : Bool
+  /-- `Query._actual_fetch`: `if query._for_update: cache.immediate = True` before the connection is prepared (lockRead) -/
+  fetchLocksFirst : Bool
+  /-- `Entity._save_updated_`: `optimistic_session = db_session is None or db_session.optimistic`;
+      `if optimistic_session and obj not in cache.for_update:` builds the optimistic WHERE  (update: `checks && !forUpd o`) -/
+  checkUnlessLockedOrNoCheckSession : Bool
+  /-- `DBSessionContextManager.__init__`: `immediate = immediate or ddl or serializable or not optimistic`,
+      `optimistic = optimistic and not serializable`                               (the `cfg` of a session; `WellFormed`) -/
+  sessionFlags : Bool
+  /-- `_get_from_identity_map_`: `if for_update: assert cache.in_transaction; cache.for_update.add(obj)`  (lockRead: `forUpd`) -/
+  identityMapMarksLocked : Bool
+  /-- `_find_in_cache_`: `if for_update and obj not in cache.for_update: return None, unique`   (lockRead always queries) -/
+  cacheHitNeedsLock : Bool
+  /-- sqlite `set_transaction_mode`: `if cache.immediate: provider.acquire_lock()` before any cursor use, the literal
+      `BEGIN IMMEDIATE TRANSACTION`, `finally: if cache.immediate and not cache.in_transaction: release_lock()` (ensureTxn) -/
+  lockBeforeBegin : Bool
+  /-- sqlite `commit` / `rollback` / `drop`: `finally: if in_transaction: cache.in_transaction = False; release_lock()` -/
+  endReleasesLock : Bool
+  /-- `acquire_lock`: pre_transaction_lock, then transaction_lock, then release pre (ensureTxn's `pre`) -/
+  acquireOrder : Bool
+  /-- `SQLiteBuilder.SELECT_FOR_UPDATE` returns the plain SELECT (forUpdateClause .sqlite = "") -/
+  sqliteDropsClause : Bool
+  /-- `SQLBuilder.SELECT_FOR_UPDATE`: 'FOR UPDATE', ' NOWAIT', ' SKIP LOCKED' (forUpdateClause) -/
+  clauseText : Bool
+  deriving DecidableEq, Repr
+
+def Src.expected : Src := ⟨true, true, true, true, true, true, true, true, true, true, true, true, true⟩
 
 /-! ### the FOR UPDATE clause (SQLBuilder.SELECT_FOR_UPDATE; OraBuilder without ROWNUM; SQLiteBuilder drops it) -/
 
